@@ -13,14 +13,15 @@ from harness.world import World, random_world
 ASSUMPTIONS = [
     "renamings: 'clean' (alpha, bravo, ... - no name is a substring of another), 'adv' (a chain a, ab, ab_, ab_c ...: "
     "every name is a string prefix of every later one, so any two siblings are prefix-related) and 'adv2' (a, xa, a_b, "
-    "aa, a1 ...: substrings / suffixes of one another)",
+    "aa, a1 ...: substrings / suffixes of one another) and 'adv3' (p, a, b, a_b, axb ...: 'p.a.b' next to 'p.a_b', look-alikes when a "
+    "dot is read as a wildcard)",
     "regex and partial-name specifications are excluded (renaming changes what they match); layers are defined by "
     "name lists only",
     "outcomes are compared after mapping names back through the inverse renaming, component by component",
     "scan-level identity (internal-prefix test, sibling root.ab next to root.a) is part of the scan checks",
 ]
 
-KINDS = ("clean", "adv", "adv2")
+KINDS = ("clean", "adv", "adv2", "adv3")
 
 
 def rule_episode(world, rules, extra=None):
